@@ -312,6 +312,7 @@ func runC20(rec *vkit.Recorder, c *c20Case) []vkit.Violation {
 	}
 	observe := func(h uint64) {
 		inc := cur[h]
+		asked := time.Now() // read BEFORE the call: a probe cannot start before the first Get was issued
 		st := exp.Get(h)
 		now := time.Now()
 		if inc == nil {
@@ -326,7 +327,7 @@ func runC20(rec *vkit.Recorder, c *c20Case) []vkit.Violation {
 			return
 		}
 		if inc.firstGet.IsZero() {
-			inc.firstGet = now
+			inc.firstGet = asked
 		}
 		health, series, total := string(st.Health), st.Series, st.TotalSeries
 		if succeededNow(h) {
@@ -506,7 +507,7 @@ func runC20(rec *vkit.Recorder, c *c20Case) []vkit.Violation {
 				rs = append(rs, r)
 			}
 		}
-		if len(rs) > 0 && (it.firstGet.IsZero() || rs[0].Start.Before(it.firstGet.Add(-time.Millisecond))) {
+		if len(rs) > 0 && (it.firstGet.IsZero() || rs[0].Start.Before(it.firstGet)) {
 			add("C20/probe-before-first-get", "target %d was probed at %v before it was first asked for (%v)", it.h, rs[0].Start.Sub(t0), it.firstGet.Sub(t0))
 		}
 		okSeen := false
